@@ -78,6 +78,21 @@ def block_shapes_ok(x, results):
     return bad
 
 
+def chunks_equal(a, b):
+    """independent oracle (not the repository's _chunks_match): same block sizes, nan matching nan"""
+    if len(a) != len(b):
+        return False
+    for da, db in zip(a, b):
+        if len(da) != len(db):
+            return False
+        for x, y in zip(da, db):
+            xn = isinstance(x, float) and math.isnan(x)
+            yn = isinstance(y, float) and math.isnan(y)
+            if xn != yn or (not xn and x != y):
+                return False
+    return True
+
+
 def _same(a, b):
     import numpy as np
     a, b = np.asarray(a), np.asarray(b)
@@ -121,7 +136,7 @@ class materialize_catalogue:
         for og, (m, g, keys, res) in out.items():
             t = f"[optimize_graph={og}]"
             r["name-pinned" + t] = m._name == x.name
-            r["advertised-chunks" + t] = _chunks_match(m.chunks, x.chunks)
+            r["advertised-chunks" + t] = chunks_equal(m.chunks, x.chunks)
             gf = graph_facts(g, keys)
             r["graph-closed" + t] = gf["missing"] == []
             r["graph-acyclic" + t] = gf["acyclic"]
